@@ -85,7 +85,7 @@ What the misses had in common, and the general lesson applied across checks:
   differ in one optional member, 40 M same-length documents against anything keyed by a short digest, and a volume case that
   overflows any bounded memory while several goroutines use it;
 * *the new construct differs from the old one in a corner* (round 11: modernisations): `Decoder.Decode` / `More` vs `Unmarshal`
-  (trailing data), `binary.Uvarint` vs a strict varint reader, `unicode.IsControl` vs `< 0x20`, `%q` vs JSON quoting,
+  (trailing data), `binary.Uvarint` vs a strict varint reader, `unicode.IsControl` vs `< 0x20`, `%%q` vs JSON quoting,
   `slices.DeleteFunc` on the caller's list, `url.URL` values as map keys, a set where a list was counted, `TrimLeft` with a
   cutset, `time.Duration` arithmetic, `min`/`max` clamps, a digest picked by label instead of by curve. The generators now carry
   the corners themselves: signed payloads with data before / behind the object, every control character and DEL / C1 in hashed
